@@ -101,6 +101,12 @@ def families(w, tier):
     fam = {}
     for FAR in far_values(w, tier):
         fam[f'sparse-{FAR}'] = sparse_program_space(w, FAR, tier) + (FAR,)
+    # the same programs with a LONG low segment (a lazily-zero tail covering three whole 16K-word pages below the flat window) and the far
+    # segment in a page whose index is a multiple of 64 (the low pages and the far page meet in the page table / cache)
+    P = 1 << 14
+    big_far = (1 << 40) if w == 64 else (1 << 26)   # (above 2^24: no explicit flat window reaches it, the default window stays hybrid)
+    segs, pos, alph, fixed = sparse_program_space(w, big_far, tier)
+    fam[f'biglow-{big_far}'] = ([(0, 6 + 3 * P), (big_far, 4)], pos, alph, fixed, big_far)
     dw = 2 * w
     if w == 64:
         # words equal to the flat fill constant: as flip word, jump word, flip target, and a word
